@@ -6,7 +6,15 @@ H = "vnacal/c17.c"
 
 
 def jobs(tier):
-    return [V.Job("through_line_mapped", H, "h_through_line_mapped", ["vnacal_layout.c"],
+    J = []
+    for n in ((3,) if tier == "quick" else (2, 3, 4)):
+        J.append(V.Job("connectivity.n%d" % n, "vnacal/c17_conn.c", "h_connectivity",
+                       ["vnacal_layout.c", "vnacal_error.c"], defines=["-DNPORTS=%d" % n], unwind=n * n + 2,
+                       union_struct=True, kind="bounded", canary=(n == 3),
+                       functions=["build_connectivity_matrix", "find"],
+                       bound="%d ports, every zero / non-zero pattern of the S matrix (symbolic)" % n, timeout=600,
+                       cbmc_flags=["--no-leak"]))
+    return J + [V.Job("through_line_mapped", H, "h_through_line_mapped", ["vnacal_layout.c"],
                   strip={"vnacal_new_add_common.c": ["_vnacal_new_add_common"]},
                   unwind=6, union_struct=True, kind="proof", canary=True,
                   functions=["vnacal_new_add_through", "vnacal_new_add_through_m", "vnacal_new_add_line",
@@ -18,7 +26,8 @@ def jobs(tier):
 
 ASSUME = [
     "_vnacal_new_add_common's body is removed from the compiled unit and replaced by a recording contract: what the funnel DOES with equal descriptions is deterministic code, so equal descriptions give equal results",
-    "NOT covered (numerical, outside the technique): order of standards, common a/b scaling, frequencies together vs apart, E12 vs UE14, port renumbering, full vs abbreviated measurement matrix",
+    "port renumbering: only its combinatorial core is decided - the connectivity (block structure) of a standard does not depend on how its ports are numbered (build_connectivity_matrix against the closure specification)",
+    "NOT covered (numerical, outside the technique): order of standards, common a/b scaling, frequencies together vs apart, E12 vs UE14, full vs abbreviated measurement matrix",
 ]
 TRUSTED = ["CBMC 6.11", "goto-instrument --remove-function-body"]
 
